@@ -1,3 +1,4 @@
+import MdVerif.Proofs.ScanLemmas
 import MdVerif.Model.Selection
 import MdVerif.Generated.Tables
 /-!
@@ -205,5 +206,113 @@ theorem c12_malformed_rejected :
 example :
     parse [.kw "resid", .lit (.int 3), .op "and", .op "not", .kw "name", .op "==", .lit (.str "CA")]
       = .ok (.bool true [.inlist "resid" [.int 3], .not (.cmp (.kw "name") [.eq] [.lit (.str "CA")])]) := rfl
+
+/-! ## the character-level scanner (Model/SelScan.lean) -/
+
+/-- **a bare word that begins with digits is one string literal** (the `fix:` for `name 1HB`): whatever the operator and keyword
+tables, the text `ds ++ c :: r` (digits, a letter, letters or digits) scans to the single token `'…'` -/
+theorem c12_scan_digit_word (ops kws : List String) (w : List Char) (h : isDigitWord w = true) :
+    scan ops kws w = .ok [Tok.lit (.str (String.ofList w))] := by
+  unfold isDigitWord at h
+  have hsplit := List.takeWhile_append_dropWhile (p := isDigitC) (l := w)
+  cases hdw : w.dropWhile isDigitC with
+  | nil => simp [hdw] at h
+  | cons c r =>
+    rw [hdw] at h hsplit
+    simp only [Bool.and_eq_true, Bool.not_eq_true', List.isEmpty_eq_false_iff] at h
+    obtain ⟨⟨hne, hc⟩, hr⟩ := h
+    -- the first character is a digit
+    cases htw : w.takeWhile isDigitC with
+    | nil => exact absurd htw hne
+    | cons d ds =>
+      have hdall : ∀ x ∈ d :: ds, isDigitC x = true := by
+        intro x hx; rw [← htw] at hx; exact mem_takeWhile_true isDigitC w x hx
+      have hd : isDigitC d = true := hdall d (by simp)
+      have hw : w = d :: (ds ++ c :: r) := by rw [← hsplit, htw]; simp
+      have halnum : w.all isAlnumC = true := by
+        rw [← hsplit, htw]
+        simp only [List.all_append, List.all_cons, Bool.and_eq_true]
+        refine ⟨?_, by simp [isAlnumC, hc], hr⟩
+        have := List.all_eq_true.mpr (fun x hx => by simp [isAlnumC, hdall x hx] : ∀ x ∈ d :: ds, isAlnumC x = true)
+        simpa using this
+      obtain ⟨htake, hdrop⟩ := takeWhile_all isWordC w (all_word_of_alnum w halnum)
+      have hcin : c ∈ w := by rw [← hsplit]; simp
+      have hnotdig : w.all isDigitC = false := by
+        apply Bool.eq_false_iff.mpr
+        intro hall
+        have := (List.all_eq_true.mp hall) c hcin
+        rw [alpha_not_digit c hc] at this; cases this
+      have hnotnums : w.all isNumsC = false := by
+        apply Bool.eq_false_iff.mpr
+        intro hall
+        have := (List.all_eq_true.mp hall) c hcin
+        rw [alpha_not_nums c hc] at this; cases this
+      have hnound : w.any (· == '_') = false := by
+        apply Bool.eq_false_iff.mpr
+        intro hany
+        obtain ⟨x, hx, hxe⟩ := List.any_eq_true.mp hany
+        have := alnum_ne x '_' ((List.all_eq_true.mp halnum) x hx) (by decide)
+        rw [this] at hxe; cases hxe
+      have hcls : classifyWord ops kws w = .ok (Tok.lit (.str (String.ofList w))) := by
+        have hwne : w.isEmpty = false := by rw [hw]; rfl
+        have hdwd : isDigitWord w = true := by
+          unfold isDigitWord; rw [hdw]; simp [htw, hc, hr]
+        simp [classifyWord, hwne, hnound, hnotdig, hnotnums, hdwd]
+      obtain ⟨s1, s2, s3, s4, s5, s6⟩ := digit_not_special d hd
+      have hnot : (w == ['n', 'o', 't']) = false := by
+        rw [hw]
+        have : (d == 'n') = false := by
+          simp only [beq_eq_false_iff_ne, ne_eq]; rintro rfl; revert hd; decide
+        simp [this]
+      unfold scan
+      rw [hw] at htake hdrop hcls hnot ⊢
+      simp only [List.length_cons, scanFuel, s1, s2, s3, s4, s5, s6, htake, hdrop, hcls, hnot]
+      rfl
+
+
+/-- blanks before a token are ignored -/
+theorem c12_scan_leading_blank (ops kws : List String) (c : Char) (cs : List Char) (h : isBlankC c = true) :
+    scan ops kws (c :: cs) = scan ops kws cs := by
+  simp [scan, scanFuel, h]
+
+/-- how a word made of a letter followed by letters and digits is read: an operator spelling wins over a keyword, a keyword over a
+bare-word string -/
+theorem c12_classify_word (ops kws : List String) (c : Char) (r : List Char) (hc : isAlphaC c = true) (hr : r.all isAlnumC = true) :
+    classifyWord ops kws (c :: r) =
+      .ok (if ops.contains (String.ofList (c :: r)) then Tok.op (String.ofList (c :: r))
+           else if kws.contains (String.ofList (c :: r)) then Tok.kw (String.ofList (c :: r))
+           else Tok.lit (.str (String.ofList (c :: r)))) := by
+  have halnum : (c :: r).all isAlnumC = true := by simp [isAlnumC, hc, hr]
+  have hnound : (c :: r).any (· == '_') = false := by
+    apply Bool.eq_false_iff.mpr
+    intro hany
+    obtain ⟨x, hx, hxe⟩ := List.any_eq_true.mp hany
+    have := alnum_ne x '_' ((List.all_eq_true.mp halnum) x hx) (by decide)
+    rw [this] at hxe; cases hxe
+  have hnd : (c :: r).all isDigitC = false := by simp [alpha_not_digit c hc]
+  have hnn : (c :: r).all isNumsC = false := by simp [alpha_not_nums c hc]
+  have hdw : isDigitWord (c :: r) = false := by
+    simp [isDigitWord, List.dropWhile, List.takeWhile, alpha_not_digit c hc]
+  simp only [classifyWord, List.isEmpty_cons, hnound, hnd, hnn, hdw, hc, hr]
+  simp only [Bool.false_eq_true, if_false, Bool.and_self, if_true]
+  split <;> (try split) <;> rfl
+
+def Tok.tag : Tok → String
+  | .kw s => "k:" ++ s | .op s => "o:" ++ s | .lp => "(" | .rp => ")" | .tree _ => "t"
+  | .lit (.int n) => "n:" ++ toString n | .lit (.dec a b) => s!"d:{a}/{b}" | .lit (.str s) => "s:" ++ s | .lit .bad => "bad"
+
+def scanTags (s : String) : Option (List String) :=
+  match scan (MdVerif.Generated.selOps.map (·.1)) (MdVerif.Generated.selKeywords.flatMap (·.2)) s.toList with
+  | .ok ts => some (ts.map Tok.tag) | .error _ => none
+
+/-! the scanner on concrete texts (tests of the definitions with the regenerated tables, not general claims) -/
+example : scanTags "mass<5" = scanTags "mass < 5" := by decide +kernel
+example : scanTags "(name CA)or index>=1" = some ["(", "k:name", "s:CA", ")", "o:or", "k:index", "o:>=", "n:1"] := by decide +kernel
+example : scanTags "name 1HB 'C A'" = some ["k:name", "s:1HB", "s:C A"] := by decide +kernel
+example : scanTags "not(protein)" = some ["s:not", "(", "k:protein", ")"] := by decide +kernel
+example : scanTags "not protein" = some ["o:not", "k:protein"] := by decide +kernel
+example : scanTags "mass .5 to 2." = some ["k:mass", "d:5/10", "s:to", "d:2/1"] := by decide +kernel
+example : scanTags "name C_1" = none := by decide +kernel
+example : scanTags "n_bonds 1.2.3" = some ["k:n_bonds", "bad"] := by decide +kernel
 
 end MdVerif.Sel
